@@ -271,6 +271,12 @@ class ModelBasedSearcher(StochasticSearcher):
         metric_val = result[self._metric]
         # Reject NaN or infinite values
         if np.isnan(metric_val) or np.isinf(metric_val):
+            # The value cannot be used as data for the surrogate model. The
+            # trial is marked as failed, so that its configuration remains
+            # excluded from future suggestions even once its pending
+            # evaluations have been removed (see ``cleanup_pending``)
+            if trial_id in self.state_transformer.state.config_for_trial:
+                self.state_transformer.mark_trial_failed(trial_id)
             return
         # Transform to criterion to be minimized
         if self.map_reward is not None:
